@@ -36,6 +36,8 @@ def obligations(tier, ctx):
         obs.append(Ob(name=f"sym_s2_{nm}", params=[("v0", "str"), ("v1", "str"), ("pref", "str"), ("ans", "str")],
                       pre=["len(v0) == 1", "len(v1) == 1", "len(pref) == 1", "len(ans) <= 1"],
                       call=f"H.nego([v0, v1], pref, {kind}, ans, 0, False, [1], 100)", backend="F", timeout=300, family="symbolic versions / malformed or error answer"))
+    obs.append(Ob(name="errtext_corpus", params=[("v0", "str"), ("t", "int")], pre=["len(v0) == 1", "0 <= t <= 4"],
+                  call="H.nego([v0], None, 5, '', t, False, [1], 100)", backend="F", timeout=300, family="version rejection wordings (-32602, corpus by index)"))
     obs.append(Ob(name="sym_s2_errcode", params=[("v0", "str"), ("v1", "str"), ("code", "int")],
                   pre=["len(v0) == 1", "len(v1) == 1"], call="H.nego([v0, v1], None, 4, '', code, False, [1], 100)",
                   backend="F", timeout=300, family="JSON-RPC error of every code"))
